@@ -117,11 +117,42 @@ def run(ctx):
                 if mc != cb or mf != fb:
                     ctx.corr_break("CORR-JSON", {"source": p, "text": t, "model_compact": mc[:200].decode("latin-1"), "go_compact": cb[:200].decode("latin-1"),
                                                  "formatted_equal": mf == fb})
+    # file results: the filename field carries the in-memory Filename verbatim, however the path was spelled
+    names = ["a.txt", "d1/b.txt", "d1/c d.txt", "sub/deep/e.txt", 'q"uote.txt', "x\\y.txt", "é.txt"]
+    files = [[n, vh.hexs("aXbXa\nXa")] for n in names]
+    # (directories given to RunFiles hold files only: a directory inside a searched directory is read as a file and panics - not part of this property)
+    spellings = [["a.txt"], ["./a.txt"], [".//a.txt"], ["d1//b.txt"], ["d1/./b.txt"], ["sub/../d1/b.txt"], ["d1/"], ["d1"], ["./d1/"], ["d1//"], ["sub/deep/"], ["sub/deep"], ["./sub/./deep/"],
+                 ["sub//deep"], ['q"uote.txt', "x\\y.txt", "é.txt"], ["a.txt", "./a.txt", "d1/../a.txt"]]
+    fcases = [{"op": "jsonfiles", "src_hex": vh.hexs(p), "files": files, "search": sp}
+              for p in ("find all 'a'", "replace all 'X' with '-'", "find all 'zzz'", "find all any = v") for sp in spellings]
+    fres = vh.run_cases(fcases, shards=4)
+    fev = 0
+    for c, r in zip(fcases, fres):
+        rep = {"source": bytes.fromhex(c["src_hex"]).decode(), "searched": c["search"]}
+        if "panic" in r or "json" not in r:
+            ctx.violation("RunFiles + JSON rendering fails", dict(rep, outcome=str({k: v for k, v in r.items() if k != "stack"})[:300]))
+            continue
+        want = [bytes.fromhex(h).decode("utf-8", "replace") for h in r["filenames_hex"]]
+        for which, hx_ in zip(("compact", "formatted"), r["json"]):
+            try:
+                doc = json.loads(bytes.fromhex(hx_).decode("utf-8"))
+            except Exception as e:
+                ctx.violation("a JSON rendering of file results does not parse (%s)" % e, rep)
+                break
+            got = [m.get("filename") for m in doc]
+            fev += 1
+            if got != want:
+                bad = next((g, w) for g, w in list(zip(got, want)) + [(None, None)] if g != w)
+                ctx.violation("the %s JSON does not carry the in-memory filename" % which,
+                              dict(rep, json_filename=str(bad[0]).replace(r["dir"], "<dir>"), in_memory_filename=str(bad[1]).replace(r["dir"], "<dir>")))
+                break
+    ev += fev
+    ctx.coverage["file_result_documents"] = fev
     ctx.coverage["evaluations"] = ev
     ctx.coverage["distinct_nontrivial"] = nt
     ctx.coverage["rule"] = ("result lists {empty, one, many} x {find, replace} x {flat, named-loop nested variables} over texts with quotes, backslashes, control characters, <>&, non-ASCII and "
                             "invalid UTF-8: Json() and FormattedJson() must parse (Python json), be equal documents, and decode to the in-memory matches (exactly for valid UTF-8); byte-for-byte "
-                            "comparison with the model's renderers on valid UTF-8; non-trivial = non-empty result lists")
+                            "comparison with the model's renderers on valid UTF-8; RunFiles over path spellings (./, //, /./, /../, trailing /, directories, quotes/backslashes/non-ASCII in names): the filename field equals the in-memory Filename; non-trivial = non-empty result lists")
     ctx.sample({"source": meta[0][0], "text": meta[0][1][0]})
 
 
